@@ -2,6 +2,11 @@
 use crate::common::*;
 use crate::framing::*;
 
+/// synthesised responses (RecoverError, Routes fallback, generated default arm, interceptor
+/// rejection, the real server): case kinds `prod …`
+#[path = "c03_prod.rs"]
+pub mod prod;
+
 pub fn generate(tier: &str, rng: &mut Rng) -> Vec<String> {
     let thorough = tier == "thorough";
     let mut out = Vec::new();
@@ -23,6 +28,7 @@ pub fn generate(tier: &str, rng: &mut Rng) -> Vec<String> {
         out.push(c.line());
     }
     out.extend(gen_whole(tier, rng));
+    out.extend(prod::generate(tier, rng));
     if thorough {
         // small-scope exhaustive: every source schedule up to length 5 over
         // {small message, message over the limit, Pending, source error}, both roles,
@@ -65,6 +71,7 @@ pub fn execute(case: &str) -> String {
     match t[0] {
         "resp" => exec_resp(&t),
         "req" => exec_req(&t),
+        "prod" => prod::execute(case),
         _ => crate::framing::execute(case),
     }
 }
